@@ -50,6 +50,9 @@ def main(args):
             continue
         binary = check.build(sim)
         k = 3 if sim == "D" else 25
+        if sim == "D":
+            # the upgrade scenario needs the older-version executables
+            check.CHECKS[prop]["extra"].setdefault("env", {})["VERIF_OLDART"] = check.old_artifacts()
         jobs = []
         base = os.path.join(check.WORK, "selftest", test)
         shutil.rmtree(base, ignore_errors=True)
